@@ -496,7 +496,7 @@ def check(pid, tier, seed, only_random=False, extra=None):
 
 
 # properties that also consume the establishment-phase traces (harness/est_exec, spec/XcmEst*.tla)
-EST_TAGS = {"C04", "C05", "C06", "C07", "C16"}
+EST_TAGS = {"C01", "C04", "C05", "C06", "C07", "C16"}
 
 
 def est_part(pid, tier, seed, rnd):
